@@ -341,22 +341,31 @@ type verifDir struct {
 	List []verifDir          `json:"list"`
 }
 
-//verif:harness id=C18 tier=quick,thorough witness=end depth=2000 bounds="recursive types: a struct recursive through map values and slice elements (map[string]T, []T inside T), a slice type that is its own element type and a map type that is its own value type: generation terminates, every $ref names a component, and small values' encodings validate"
+//verif:harness id=C18 tier=quick,thorough witness=end depth=2000 bounds="recursive types: a struct recursive through map values and slice elements (map[string]T, []T inside T), a slice type that is its own element type and a map type that is its own value type x options in {none, a TypeNameGenerator, component export, both}: generation terminates, every $ref names a component, and small values' encodings validate"
 func verifH_C18_recursive_types() {
 	comps := openapi3.Schemas{}
 	var ref *openapi3.SchemaRef
 	var err error
 	var enc any
 	shape := verifChoose("type", 3)
+	var opts []Option
+	switch verifChoose("options", 4) {
+	case 1:
+		opts = append(opts, CreateTypeNameGenerator(func(t reflect.Type) string { return "pre_" + t.Name() }))
+	case 2:
+		opts = append(opts, CreateComponentSchemas(ExportComponentSchemasOptions{ExportComponentSchemas: true}))
+	case 3:
+		opts = append(opts, CreateTypeNameGenerator(func(t reflect.Type) string { return "pre_" + t.Name() }), CreateComponentSchemas(ExportComponentSchemasOptions{ExportComponentSchemas: true}))
+	}
 	switch shape {
 	case 0:
-		ref, err = NewSchemaRefForValue(&verifDir{}, comps)
+		ref, err = NewSchemaRefForValue(&verifDir{}, comps, opts...)
 		enc = map[string]any{"name": "n", "sub": map[string]any{"k": map[string]any{"name": "m", "sub": map[string]any{}, "list": []any{}}}, "list": []any{map[string]any{"name": "l", "sub": map[string]any{}, "list": []any{}}}}
 	case 1:
-		ref, err = NewSchemaRefForValue(verifRecSlice{}, comps)
+		ref, err = NewSchemaRefForValue(verifRecSlice{}, comps, opts...)
 		enc = []any{[]any{}, []any{[]any{}}}
 	case 2:
-		ref, err = NewSchemaRefForValue(verifRecMap{}, comps)
+		ref, err = NewSchemaRefForValue(verifRecMap{}, comps, opts...)
 		enc = map[string]any{"k": map[string]any{}}
 	}
 	verifAssert(err == nil && ref != nil, "C18 recursive types: generation terminates with a schema")
